@@ -62,6 +62,9 @@ def ro_queries(ctx, seed):
     xa = m.dvar(3); xa_val = r.choice([0.5, 1.0, 2.0, -1.0, 1.5, -3.0, -2.5], 3)      # the largest magnitude may sit on a negative entry
     env.vars.append((xa, xa_val, 'dec'))
     wv = m.dvar(); w_val = float(r.choice([-1.0, 0.5, 2.0])); env.vars.append((wv, np.array(w_val), 'dec'))
+    # element-wise atoms on arrays that are not 1-D: a column, a matrix, a scalar
+    shp2 = [(3, 1), (2, 3), (1, 3), (2, 2)][int(r.integers(4))]
+    xm = m.dvar(shp2); xm_val = r.choice([0.5, 1.0, 2.0, -1.0, 1.5], shp2); env.vars.append((xm, xm_val, 'dec'))
     atoms = []
     for name in r.choice(list(AT.ATOMS), 4, replace=False):
         xt, sign, quad, outk, dom, cone, build, npf = AT.ATOMS[str(name)]
@@ -131,6 +134,9 @@ def ro_queries(ctx, seed):
             q(ctx, 'RoAffine.__call__(broadcast realisation)', dict(case0, given=what, shape=list(env.zb_val.shape)),
               lambda given=given: ((env.xb * env.zb).sum() + env.xb.sum())(env.zb.assign(given), *others),
               float((env.xb_val * full).sum() + env.xb_val.sum()), call_expr=True)
+    for nm_, bld_, npf_ in (('square', lambda e: rso.square(e), lambda v: v ** 2), ('abs', lambda e: abs(e), np.abs), ('exp', lambda e: rso.exp(e), np.exp)):
+        q(ctx, 'Convex.__call__:%s(array %s)' % (nm_, 'x'.join(map(str, shp2))), dict(case0, atom=nm_, shape=list(shp2)), lambda b_=bld_: (2 * b_(xm) + 1)(), 2 * npf_(xm_val) + 1)
+        q(ctx, 'Convex.__call__:%s(scalar)' % nm_, dict(case0, atom=nm_, shape=[]), lambda b_=bld_: b_(wv)(), npf_(np.array(w_val)))
     # atoms
     for name, ops, e, ref in atoms:
         q(ctx, 'Convex.__call__:' + name, dict(case0, atom=name, ops=ops), lambda e=e: e(), ref, tol=1e-9)
